@@ -17,13 +17,13 @@ STALE = "revoke-applies-stale-validation"
 
 #            leg A configurations      leg B (cfg, fee, pct)                                leg C (name, fee, pct, num, depth)
 TIERS = {
-    "quick": {"a": [("pay", 0, 10), ("route", 0, 10)],
-              "b": [("pay", 0, 10), ("route", 0, 10), ("pay", 1, 100)],
+    "quick": {"a": [("pay", 0, 10), ("route", 0, 10), ("issue", 0, 10)],
+              "b": [("pay", 0, 10), ("route", 0, 10), ("pay", 1, 100), ("issue", 0, 10)],
               "c": [("sim2", 0, 10, 40, 40)]},
     "thorough": {"a": [("pay", 0, 10), ("route", 0, 10), ("loop", 0, 10), ("three", 0, 10), ("parts", 0, 10),
-                       ("pay", 1, 100), ("route", 1, 100)],
+                       ("pay", 1, 100), ("route", 1, 100), ("issuex", 0, 10)],
                  "b": [("pay", 0, 10), ("route", 0, 10), ("pay", 1, 100), ("pay", 1, 10), ("route", 1, 100),
-                       ("loop", 0, 10), ("three", 0, 10), ("parts", 0, 10)],
+                       ("loop", 0, 10), ("three", 0, 10), ("parts", 0, 10), ("issue", 0, 10), ("issuex", 0, 10)],
                  "c": [("sim2", 0, 10, 150, 50), ("sim3", 0, 10, 100, 50), ("sim2", 1, 100, 100, 50)]},
 }
 
